@@ -72,6 +72,48 @@ MCNext ==
                /\ Deliver(c, e, [name |-> NextName, ts |-> 1, rank |-> 0, now |-> 1])
                /\ Track
 
+\* ---- full action set (explored by simulation: -simulate num=N -depth D) ----
+Mem(c) == GS(G, cl[c][G].chain).members
+NMF(ts, rank) == [name |-> NextName, ts |-> ts, rank |-> rank, now |-> 1]
+FullNext ==
+    \/ MCNext
+    \/ /\ Created(G) /\ NEv < MaxEvents
+       /\ \/ \E c \in Clients, ts \in TsSet, rank \in Ranks : Leave(c, G, NMF(ts, rank)) /\ Track
+          \/ \E c \in Clients, t \in Clients, ts \in TsSet, rank \in Ranks :
+                /\ NCommits < MaxCommits /\ t # c /\ t \in Mem(c)
+                /\ DoCommit(c, G, "remove", {t}, NMF(ts, rank), <<>>) /\ Track
+          \/ \E c \in Clients, t \in Clients, ts \in TsSet, rank \in Ranks :
+                /\ NCommits < MaxCommits /\ t \notin Mem(c)
+                /\ DoCommit(c, G, "add", {t}, NMF(ts, rank), [u \in {t} |-> "w" \o ToString(NEv + 1)]) /\ Track
+          \/ \E c \in Clients, ts \in TsSet, rank \in Ranks :
+                /\ NCommits < MaxCommits
+                /\ DoCommit(c, G, "rotate", "nid" \o ToString(NEv + 1), NMF(ts, rank), <<>>) /\ Track
+          \/ \E c \in Clients, t \in Clients, ts \in TsSet, rank \in Ranks :
+                /\ NCommits < MaxCommits /\ t # c /\ t \in Mem(c)
+                /\ DoCommitX(c, G, "remove", {t}, NMF(ts, rank), <<>>, TRUE) /\ Track          \* raw, possibly by a non-admin
+          \/ \E c \in Clients, t \in Clients, ts \in TsSet, rank \in Ranks :
+                /\ ProposeRemove(c, G, NMF(ts, rank), t) /\ Track
+          \/ \E c \in Clients, v \in Clients, ts \in TsSet :
+                /\ SendMessage(c, G, NMF(ts, 0), [id |-> "m" \o ToString(NEv + 1), claimed |-> v, content |-> "t", ca |-> ts,
+                                                   idr |-> NEv, preset |-> ""]) /\ Track
+          \/ \E c \in Clients, cls \in {"badkind", "nogroup", "undecryptable", "mlsjunk"}, ts \in TsSet, rank \in Ranks :
+                /\ PublishJunk(c, G, NMF(ts, rank), cls, IF cls = "nogroup" THEN "" ELSE cl[c][G].rec.data.nid, NoE, cl[c][G].chain)
+                /\ UNCHANGED held
+          \/ \E c \in Clients, b \in DOMAIN ev, ts \in TsSet, rank \in Ranks :
+                /\ ev[b].kind # "junk"
+                /\ PublishJunk(c, G, NMF(ts, rank), "bitflip", ev[b].tag, b, <<>>)
+                /\ UNCHANGED held
+    \/ /\ Created(G)
+       /\ \/ \E c \in Clients : (cl[c][G].pend # NoE) /\ (\A w \in DOMAIN wl : (wl[w].commit = cl[c][G].pend) => (\A x \in Clients : w \notin DOMAIN welc[x])) /\ ClearPending(c, G) /\ Track
+          \* (welcomes of a commit whose publication failed are never sent)
+          \/ \E c \in Clients, w \in DOMAIN wl : wl[w].commit \notin withdrawn /\ ProcessWelcome(c, w, w \o "x1") /\ UNCHANGED held
+          \/ \E c \in Clients, w \in DOMAIN wl : wl[w].commit \notin withdrawn /\ AcceptWelcome(c, w) /\ Track
+          \/ \E c \in Clients, w \in DOMAIN wl : wl[w].commit \notin withdrawn /\ DeclineWelcome(c, w) /\ UNCHANGED held
+          \/ \E c \in Sql : Restart(c) /\ UNCHANGED held
+          \/ Quiescent /\ ~hist.q /\ Quiesce /\ UNCHANGED held
+
+FullSpec == MCInit /\ [][FullNext]_mcvars
+
 MCSpec == MCInit /\ [][MCNext]_mcvars
 
 \* hide pure observation variables from the state identity
@@ -79,6 +121,9 @@ MCView == <<ginfo, ev, cl, proc, msgs, snapq, hyd, withdrawn, wl, welc, pwelc, h
 
 MC_C01 == Quiescent => C01_ExcusedQuiet
 MC_C01_Plain == Quiescent => C01_Plain
+MC_C03 == C03_OnlyMembers
+MC_C16 == C16_ConsentGated
+MC_C05 == C05_ChainAuthorised
 MC_C08 == C08_Mirror
 MC_C20 == C20_Bounded
 MC_Secrets == SecretsMatch
